@@ -87,7 +87,7 @@ class ReportLuns(SCSICommand):
 
         for l in data["luns"]:
             _r = bytearray(8)
-            encode_dict(l, cls._datain_bits, _r)
+            encode_dict({"lun": v for v in l.values()}, cls._datain_bits, _r)
 
             result += _r
         result[:4] = scsi_int_to_ba(len(result) - 8, 4)
